@@ -28,6 +28,25 @@ Theorem C01_precond_same_target_partial : forall {X Z} (L Pi Q : X -> XR) (Tinv_
   smc_row L Pi Q Tinv_pt Tinv_lj (Fin b) zi = Fin ((1 - b) * q + b * (l + p) + j).
 Proof. intros. now apply smc_row_finite. Qed.
 
+(* the SMC incremental weight (Gen/Kernels.v log_weights: (b1-b0)(log L + log pi - log q)) has, under the tempered
+   distribution at b0, mean Z_{b1}/Z_{b0}: the quantity log_evidence_ratio estimates (C08) is the right one *)
+Theorem C01_incremental_weight_mean_partial : forall {A} (pts : list A) (lq lt : A -> R) (b0 b1 : R), pts <> [] ->
+  expect (map (fun x => (x, exp ((1 - b0) * lq x + b0 * lt x) / vsum (map (fun y => exp ((1 - b0) * lq y + b0 * lt y)) pts))) pts)
+         (fun x => exp ((b1 - b0) * (lt x - lq x)))
+  = vsum (map (fun y => exp ((1 - b1) * lq y + b1 * lt y)) pts) / vsum (map (fun y => exp ((1 - b0) * lq y + b0 * lt y)) pts).
+Proof. intros A pts lq lt b0 b1 H. exact (incremental_weight_expectation pts lq lt H b0 b1). Qed.
+
+(* ... so for ANY ladder from 0 to 1 the exact log mean incremental weights add up to the log-evidence sum_x L(x)pi(x),
+   provided the proposal is normalised *)
+Theorem C01_ladder_targets_evidence_partial : forall {A} (pts : list A) (lq lt : A -> R) (bs : list R), pts <> [] ->
+  vsum (map (fun x => exp (lq x)) pts) = 1 -> last bs 0 = 1 ->
+  fold_right Rplus 0 (map (fun ab => ln (expect (pb pts lq lt (fst ab)) (fun x => exp ((snd ab - fst ab) * (lt x - lq x)))))
+                          (combine (0 :: bs) bs))
+  = ln (vsum (map (fun x => exp (lt x)) pts)).
+Proof. intros A pts lq lt bs H. exact (ladder_targets_evidence pts lq lt H bs). Qed.
+
 Print Assumptions C01_evidence_unbiased_partial.
+Print Assumptions C01_incremental_weight_mean_partial.
+Print Assumptions C01_ladder_targets_evidence_partial.
 Print Assumptions C01_tempered_path_telescopes_partial.
 Print Assumptions C01_precond_same_target_partial.
